@@ -189,13 +189,36 @@ impl Prop for C03 {
   fn run(&self, case: &Case, _flavour: &str) -> Outcome {
     let k = case.input["kind"].as_str().unwrap().to_string();
     let x: CVal = serde_json::from_value(case.input["x"].clone()).unwrap();
-    let src = case.input["src"].as_str().unwrap().to_string();
+    let mut src = case.input["src"].as_str().unwrap().to_string();
     let mut s = Sess::new();
     s.bind("x", &x, false);
     let other = CVal::S("f64".into(), Sc::f64(42.0));
     s.bind("w", &other, false);
+    // index forms: in half of the cases (hash of the case id) one or both index expressions are first bound to variables
+    // (x[i1,i2] instead of x[2,[1 3]]): kernels are selected differently for variable and literal indices
+    let h = case.id.bytes().fold(0xcbf29ce484222325u64, |h, b| (h ^ b as u64).wrapping_mul(0x100000001b3));
+    let mut hoisted = false;
+    let mut probe_src = case.input["probe"].as_str().map(|p| p.to_string());
+    let hoist = |s: &mut Sess, text: &str, prefix: &str| -> Option<String> {
+      let inner = text.strip_prefix("x[")?.strip_suffix(']')?;
+      let mut parts: Vec<String> = Vec::new(); let mut depth = 0; let mut cur = String::new();
+      for ch in inner.chars() { match ch { '[' => { depth += 1; cur.push(ch); } ']' => { depth -= 1; cur.push(ch); } ',' if depth == 0 => { parts.push(cur.clone()); cur.clear(); } _ => cur.push(ch) } }
+      parts.push(cur);
+      let mut any = false;
+      for (i, p) in parts.iter_mut().enumerate() {
+        if p.trim() == ":" || (h >> (9 + i)) & 1 == 0 { continue; }
+        let name = format!("{}{}", prefix, i + 1);
+        if !s.eval(&format!("{} := {}", name, p)).is_ok() { return None; }
+        *p = name; any = true;
+      }
+      if any { Some(format!("x[{}]", parts.join(","))) } else { None }
+    };
+    if (h >> 8) & 1 == 1 {
+      let new_probe = match &probe_src { Some(p) => hoist(&mut s, p, "p"), None => None };
+      if let Some(ns) = hoist(&mut s, &src, "i") { src = ns; hoisted = true; if let Some(np) = new_probe { probe_src = Some(np); } }
+    }
     let before = s.snapshot();
-    if let Some(probe) = case.input["probe"].as_str() {
+    if let Some(probe) = probe_src.as_deref() {
       // out-of-range variant: the in-range form must be supported first
       let p = s.eval(probe);
       if !p.is_ok() { return Outcome::trivial().tag(format!("unsupported:{}", case.cell.split("form=").nth(1).unwrap_or("").split(';').next().unwrap_or(""))); }
@@ -215,11 +238,11 @@ impl Prop for C03 {
     let after = s.snapshot();
     if after != before { return Outcome::violated("source-modified", format!("symbols changed by read {}: {} -> {}", src, show_snapshot(&before), show_snapshot(&after))); }
     if let Ev::Err(kind, msg) = &res {
-      if case.input["documented"].as_bool().unwrap_or(false) { return Outcome::violated("documented-form-rejected", format!("{} on {}: {} {}", src, x.show(), kind, msg.chars().take(100).collect::<String>())); }
+      if case.input["documented"].as_bool().unwrap_or(false) && !hoisted { return Outcome::violated("documented-form-rejected", format!("{} on {}: {} {}", src, x.show(), kind, msg.chars().take(100).collect::<String>())); }
       return Outcome::trivial().tag(format!("unsupported:{}", case.cell.split("form=").nth(1).unwrap_or("").split(';').next().unwrap_or("")));
     }
     match judge_read(&res, &exp, &k) {
-      Ok(()) => Outcome::held().tag(format!("arm:{}", arm.split_whitespace().next().unwrap_or(""))),
+      Ok(()) => Outcome::held().tag(format!("arm:{}", arm.split_whitespace().next().unwrap_or(""))).tag(if hoisted { "ixform:variables" } else { "ixform:literal" }),
       Err((class, detail)) => if class == "harness-parse" { Outcome::inconclusive("harness-parse", format!("{} {}", src, detail)) } else { Outcome::violated(&class, format!("{} on {}: {}", src, x.show(), detail)) },
     }
   }
